@@ -217,6 +217,9 @@ type Gen struct {
 	// StatusHeavy: C25-style histories
 	StatusHeavy bool
 	MaxTTL      int64
+	// real-time runs: fixed advance step and a fixed TTL menu (see c25_test.go)
+	AdvanceStep int64
+	TTLs        []int64
 }
 
 func (g *Gen) wname() string {
@@ -285,6 +288,9 @@ func (g *Gen) names(u []string) []string {
 }
 
 func (g *Gen) ttl() int64 {
+	if len(g.TTLs) > 0 {
+		return g.TTLs[g.R.Intn(len(g.TTLs))]
+	}
 	m := g.MaxTTL
 	if m <= 0 {
 		m = 9
@@ -292,14 +298,42 @@ func (g *Gen) ttl() int64 {
 	return int64(g.R.Intn(int(m))) + 1
 }
 
+// statusMix maps a draw to the op-kind ranges of one(): mostly status reports,
+// reads and clock advances, some entity churn.
+func statusMix(r *rand.Rand) int {
+	y := r.Intn(100)
+	switch {
+	case y < 34:
+		return 84 + r.Intn(8) // SetWorkloadStatus
+	case y < 52:
+		return 76 + r.Intn(6) // SetNodeStatus
+	case y < 68:
+		return 94 + r.Intn(6) // Advance
+	case y < 75:
+		return 82 + r.Intn(2) // GetNodeStatus
+	case y < 83:
+		return 92 + r.Intn(2) // GetWorkloadStatus
+	case y < 86:
+		return 62 + r.Intn(2) // GetWorkload
+	case y < 90:
+		return 58 + r.Intn(4) // RemoveWorkload
+	case y < 93:
+		return 42 + r.Intn(12) // AddWorkload
+	case y < 95:
+		return 54 + r.Intn(4) // UpdateWorkload
+	case y < 97:
+		return 24 + r.Intn(4) // RemoveNode
+	case y < 99:
+		return 13 + r.Intn(11) // AddNode
+	}
+	return 28 + r.Intn(2) // GetNode
+}
+
 func (g *Gen) one() Op {
 	r := g.R
 	x := r.Intn(100)
 	if g.StatusHeavy {
-		x = 60 + r.Intn(60)
-		if x >= 100 {
-			x = 76 + (x-100)%20 // status ops and advances
-		}
+		x = statusMix(r)
 	}
 	switch {
 	case x < 7:
@@ -343,7 +377,7 @@ func (g *Gen) one() Op {
 	case x < 54:
 		w := g.workload(false)
 		var pr *Proc
-		if r.Intn(4) == 0 {
+		if r.Intn(4) == 0 && !g.StatusHeavy {
 			pr = g.proc()
 			if r.Intn(3) != 0 {
 				if a, e, ok := ParseName(w.Name); ok {
@@ -420,6 +454,9 @@ func (g *Gen) one() Op {
 	case x < 94:
 		return Op{Kind: "GetWorkloadStatus", N: pick(r, WIDs)}
 	default:
+		if g.AdvanceStep > 0 {
+			return Op{Kind: "Advance", TTL: g.AdvanceStep}
+		}
 		return Op{Kind: "Advance", TTL: int64(r.Intn(6)) + 1}
 	}
 }
